@@ -6,7 +6,7 @@
 From Coq Require Import ZArith List Bool Arith.
 From MomoCommon Require Import GenPrelude.
 From C20 Require Import PoolAlloc PoolAllocProofs.
-From C20 Require PoolAssumptions.
+From C20 Require PoolAssumptions DiffRun.
 From C20 Require Gen_PoolAllocator Gen_MemPoolOps Gen_MemPoolNewBlock Gen_PoolAllocatorHandles.
 Import ListNotations.
 
@@ -357,6 +357,14 @@ Theorem C20_pvNewBlock_success_effect : forall lb ln ba lnf nb sb sn sp bf bc bp
       sb mem head (bp (lnf (ba head (bf (lb head)))) (bc (lb head) - 1)%Z)).
 Proof. exact pvNewBlock_success_effect. Qed.
 Print Assumptions C20_pvNewBlock_success_effect.
+
+(* The instance of the generated pvNewBlock that is EXECUTED against the real pool (coq/DiffRun.v, token `n..` of every allocation
+   taking a block from an existing head buffer) computes: first free index := the block's next-free link, free count - 1, and the
+   head moves exactly when that was the last block (to the next buffer, else to the new look-ahead buffer). *)
+Theorem C20_generated_pvNewBlock_run_spec : forall f c nn nf, (1 <= c < 1000 -> -200 <= f -> -200 <= nf ->
+  DiffRun.gen_newblock f c nn nf = ((if c - 1 =? 0 then (if nn then 2 else 1) else 0), nf, c - 1))%Z.
+Proof. exact gen_newblock_spec. Qed.
+Print Assumptions C20_generated_pvNewBlock_run_spec.
 
 (* Owners.  The GENERATED copy constructor and operator= make the allocator's pool pointer the source's, exactly as the
    model's OpCopy / OpMove / OpAssign; and in every reachable state a pool object exists EXACTLY as long as some living
